@@ -88,4 +88,21 @@ def premiumInRange (amt rate dur : Nat) : Bool :=
   decide (amt < 2 ^ 63) && decide (rate < 2 ^ 32) && decide (dur < 2 ^ 32) &&
     decide (floor (premiumF amt rate dur) < 2 ^ 63)
 
+/-- `LumpSumPremium` for an arbitrary `int64` amount, as an integer, for models that carry amounts as `Int`
+    (e.g. the batch model's `Env.premium : Int → Nat → Nat → Int`).
+    * negative amounts: IEEE arithmetic is sign-symmetric and Go's conversion truncates toward zero, so the value is
+      `-(premium |amt| rate dur)`;
+    * results outside `[-2^63, 2^63)`: Go leaves the conversion implementation-defined; on amd64 (`CVTTSD2SQ`) the
+      result is the "integer indefinite" value `-2^63`. That choice is modelled here and compared with the Go build
+      of the harness (`C11 premi` lines); nothing is *proved* about it. -/
+def premiumInt (amt : Int) (rate dur : Nat) : Int :=
+  let p : Int := premium amt.natAbs rate dur
+  let v : Int := if amt < 0 then -p else p
+  if v < -(2 ^ 63) ∨ 2 ^ 63 ≤ v then -(2 ^ 63) else v
+
+/-- the guard under which `premiumInt` is specified by the Go language (not only by the amd64 back end) -/
+def premiumIntInRange (amt : Int) (rate dur : Nat) : Bool :=
+  decide (-(2 ^ 63) ≤ amt) && decide (amt < 2 ^ 63) && decide (rate < 2 ^ 32) && decide (dur < 2 ^ 32) &&
+    decide ((premium amt.natAbs rate dur : Int) < 2 ^ 63)
+
 end Pool.Float64
